@@ -2,6 +2,7 @@
 pub mod alloc;
 pub mod checks;
 pub mod e4;
+pub mod e5;
 pub mod e6;
 pub mod e7;
 pub mod gen;
